@@ -59,8 +59,11 @@ def run_case(ctx, k, rng):
         A, B, scale = gen_mixed(rng); small = len(A) + len(B) <= 11; cls = "mixed"
     else:
         A, B, scale, small = gen_pair(rng, "quick" if ctx.tier == "quick" else "thorough")
-        if not small and ctx.tier == "thorough" and rng.random() < 0.08:
+        if not small and rng.random() < (0.08 if ctx.tier == "thorough" else 0.04):
+            # sizes around and above 128 / 256 (block sizes, small-integer index types)
             m, n = int(rng.integers(100, 301)), int(rng.integers(100, 301))
+            if rng.random() < 0.5:
+                m = int(rng.choice([127, 128, 129, 255, 256, 257]))
             A, B = gen.diagram(rng, m, None, scale), gen.diagram(rng, n, None, scale)
         cls = "small" if small else "medium"
     ctx.begin(k, cls, {"dgm1": A, "dgm2": B})
